@@ -163,6 +163,38 @@ mod harness {
     }
 
 }
+include!(concat!(env!("OUT_DIR"), "/exu.rs"));
+/// Conway, function level: the current text of check_tx_ex_units (taken out of the source by build.rs) on the Plutus V3 fixture conway5.tx with its
+/// redeemers re-written in the LIST form so that one pointer is carried twice — the budget is the sum over every entry carried. Only the witness
+/// set is re-assembled; the rule reads nothing else.
+fn conway_duplicates(n: &mut u64) {
+    use pallas_primitives::conway::{ExUnits, Redeemer, Redeemers, Tx, WitnessSet};
+    use pallas_codec::minicbor;
+    if !exu_conway::FOUND { println!("note: conway::check_tx_ex_units is no longer found as a function of that name — its function-level check is skipped"); return; }
+    let bytes = hex::decode(std::fs::read_to_string("/repo/test_data/conway5.tx").expect("fixture conway5.tx").trim()).expect("hex");
+    let tx: Tx = minicbor::decode(&bytes).expect("conway5.tx decodes");
+    let ws: WitnessSet = minicbor::decode(tx.transaction_witness_set.raw_cbor()).expect("witness set decodes");
+    let firsts: Vec<Redeemer> = match ws.redeemer.as_ref().map(|r| (**r).clone()) {
+        Some(Redeemers::List(l)) => l,
+        Some(Redeemers::Map(m)) => m.iter().map(|(k, v)| Redeemer { tag: k.tag, index: k.index, data: v.data.clone(), ex_units: v.ex_units }).collect(),
+        None => { println!("note: conway5.tx carries no redeemers — Conway function-level check skipped"); return; } };
+    let Some(first) = firsts.first().cloned() else { return };
+    let big = ExUnits { mem: 14_000_000, steps: 10_000_000_000 };
+    let mut twice = first.clone(); twice.ex_units = big;
+    let (tm, ts) = (firsts.iter().map(|r| r.ex_units.mem).sum::<u64>() + big.mem, firsts.iter().map(|r| r.ex_units.steps).sum::<u64>() + big.steps);
+    let mut list = vec![twice]; list.extend(firsts.iter().cloned());
+    let mut w2 = ws.clone(); w2.redeemer = Some(Redeemers::List(list).into());
+    let mut v = vec![0x84u8]; v.extend_from_slice(tx.transaction_body.raw_cbor()); v.extend_from_slice(&minicbor::to_vec(&w2).expect("witness set encodes")); v.push(0xf5); v.push(0xf6);
+    let tx2: Tx = match minicbor::decode(&v) { Ok(t) => t, Err(e) => { println!("note: the re-assembled Conway transaction does not decode ({e}) — skipped"); return; } };
+    let carried = match tx2.transaction_witness_set.redeemer.as_ref().map(|r| (**r).clone()) { Some(Redeemers::List(l)) => l.len(), _ => 0 };
+    if carried != firsts.len() + 1 { println!("note: the re-assembled witness set carries {carried} list redeemers, not {} — skipped", firsts.len() + 1); return; }
+    for (m, s) in [(tm, ts), (tm - 1, ts), (tm, ts - 1), (big.mem, big.steps), (tm + 1, ts + 1)] {
+        let r = exu_conway::call(&tx2, &exu_conway::ConwayProtParams { max_tx_ex_units: ExUnits { mem: m, steps: s } });
+        let within = tm <= m && ts <= s;
+        if r.is_ok() != within { println!("VIOLATED: conway check_tx_ex_units on conway5.tx with list-form redeemers carrying pointer ({:?}, {}) twice (total mem {tm}, steps {ts}) and max_tx_ex_units = (mem {m}, steps {s}) gives {r:?}: expected {}", first.tag, first.index, if within { "acceptance" } else { "TxExUnitsExceeded" }); std::process::exit(1); }
+        *n += 1;
+    }
+}
 const TX_MEM: u64 = 3678344;
 const TX_STEPS: u64 = 1304942839;
 fn main() {
@@ -180,5 +212,6 @@ fn main() {
         }
         n += 1;
     } }
+    conway_duplicates(&mut n);
     println!("checked {n} pairs of execution-unit limits around the transaction's declared units");
 }
